@@ -2,7 +2,7 @@
 
 Deciding step: exhaustive enumeration of every message type over per-field
 boundary lattices (complete for 8-bit fields) against two backgrounds, and of all
-returned arrays of length 0..4 over {None, 0, 1, -1, 2^31-1, -2^31} plus every
+returned arrays of length 0..5 (quick) / 0..6 (thorough) over {None, 0, 1, -1, 2^31-1, -2^31} plus every
 single-None / single-defined pattern of lengths 5..64, each serialised and
 deserialised by the real code and compared field by field with an independently
 written field list.
@@ -17,7 +17,7 @@ from mc.report import add_sample, add_violation, count, new_part
 
 LEVEL = "exploration"
 RULE = ("message type x (every value of each field's lattice against a low and a high background); arrays: all of length "
-        "0..4 (quick) / 0..5 (thorough) over {None,0,1,-1,INT_MAX,INT_MIN}, single-None and single-defined patterns for "
+        "0..5 (quick) / 0..6 (thorough) over {None,0,1,-1,INT_MAX,INT_MIN}, single-None and single-defined patterns for "
         "lengths 5..64; subroutine messages over short instruction sequences; every sequence of up to 3 (quick) / 4 (thorough) "
         "operations on one message object (serialise, len, str, set a field, edit the value list in place or replace it) "
         "followed by serialise -> deserialise against the object's final state; distinct = distinct (type, field values); "
@@ -392,7 +392,7 @@ def run(ctx):
         shards.append(("struct", "ret", k))
     for bank in range(4):
         shards.append(("retreg", bank))
-    maxlen = 4 if ctx.tier == "quick" else 6
+    maxlen = 5 if ctx.tier == "quick" else 6
     shards.append(("arrays", "all", (0, None)))
     for n in range(1, maxlen + 1):
         for first in ARR_VALUES:
